@@ -246,7 +246,12 @@ def main(pid, tier):
         chk.notes += [f"{r['case']}: {n}" for n in r["notes"]]
         for s_ in r["samples"]:
             chk.sample(s_)
-    chk.bounds = {"cases": names, "option_styles": ["plain 'a,b'", "spaced ' a , b ' / ' k = v '"], "compared": "macro tables (ground), every rate coefficient and every right-hand side (SMT, all inputs), TOML fields (ground)"}
+    # CrossHair on the option parser of `naunet init` with symbolic option strings
+    from . import chx_props
+
+    chx_props.main("C20", tier, chk=chk, plan_key="C20")
+    chk.bounds = {"option_parser (CrossHair, symbolic strings)": "every string of <=4 characters over {a, B, ',', ' '} for list options (elements, allowed species, cooling); <=4 over {a,B,':',',',' '} for the replacement table; <=3-character keys over {a,B,' ','#'} for the binding table; InitCommand.handle on a duck-typed self with BaseConfiguration replaced by a recorder",
+                  "cases": names, "option_styles": ["plain 'a,b'", "spaced ' a , b ' / ' k = v '"], "compared": "macro tables (ground), every rate coefficient and every right-hand side (SMT, all inputs), TOML fields (ground)"}
     chk.assumptions = ["interactive prompts are not exercised (--no-interaction, every option given)", "the `ism` example needs an external file and is out of scope; `example` command itself fails at baseline (always_fail test) so examples are driven through `init`",
                        "real arithmetic; libm uninterpreted"]
     chk.extra["repo_fingerprint"] = proj.repo_fingerprint()
